@@ -47,6 +47,9 @@ class SimExecutor:
                 yield fn(*args)
             return
         rng = _SEAM.order_rng
+        if _SEAM.pool_interleave and _SEAM.sched is None:
+            yield from self._interleaved(fn, it, rng)
+            return
         window = list(islice(it, self._max_workers * 5))
         while window:
             STATS["unordered_batches"] += 1
@@ -57,6 +60,50 @@ class SimExecutor:
             args = window.pop(i)
             yield fn(*args)
             window.extend(islice(it, 1))
+
+
+    def _interleaved(self, fn, it, rng):
+        """Pool tasks as real threads under the baton scheduler: up to max_workers
+        at a time, pre-empted at seam points (open / every chunk read); results are
+        handed on in completion order."""
+        import random
+
+        from .sched import Policy, ThreadSched
+
+        while True:
+            batch = list(islice(it, self._max_workers))
+            if not batch:
+                return
+            STATS["interleaved_batches"] = STATS.get("interleaved_batches", 0) + 1
+            STATS["unordered_batches"] += 1
+            finished = []
+
+            def task(i, args):
+                def run():
+                    try:
+                        return ("ok", fn(*args))
+                    except BaseException as exc:  # noqa: BLE001
+                        return ("exc", exc)
+                    finally:
+                        finished.append(i)
+
+                return run
+
+            sched = ThreadSched(_SEAM, Policy(random.Random(rng.getrandbits(32)), {"kind": rng.choice(["uniform", "sticky"]), "p_stay": 0.5}))
+            prev_fine = _SEAM.fine_reads
+            _SEAM.fine_reads = True
+            try:
+                sched.run({f"pool{i:02d}": task(i, args) for i, args in enumerate(batch)})
+            finally:
+                _SEAM.fine_reads = prev_fine
+            STATS["pool_yields"] = STATS.get("pool_yields", 0) + sched.yields
+            if sched.errors:
+                raise RuntimeError(f"pool task died outside fn: {sched.errors}")
+            for i in finished:
+                kind, val = sched.results[f"pool{i:02d}"]
+                if kind == "exc":
+                    raise val
+                yield val
 
 
 def install(seam):
